@@ -309,8 +309,12 @@ def worker(argv):
         lst = []
         for i in range(k):
             scn = mod.generate(gen.rng_for(seed, "C15:" + pid, i), "quick")
-            res = mod.execute(scn)
-            lst.append([res.get("digest"), sorted((v["rule"], v["classifier"]) for v in res.get("violations") or [])])
+            try:
+                res = mod.execute(scn)
+                lst.append([res.get("digest"), sorted((v["rule"], v["classifier"]) for v in res.get("violations") or [])])
+            except BaseException as e:  # pylint: disable=broad-except
+                # a run that cannot complete in this configuration (e.g. unbounded recursion) is an outcome to compare, not a crash
+                lst.append(["run-did-not-complete:%s" % type(e).__name__, []])
         digs[pid] = lst
     out["digests"] = digs
     # C: mixed enabled forms vs the same worlds with the expected-disabled contracts omitted
